@@ -10,6 +10,7 @@ package main
 
 import (
 	"context"
+	"errors"
 	"fmt"
 	"hash/crc32"
 	"os"
@@ -46,6 +47,7 @@ type reg struct {
 	static bool         // endpoints are published with static weights 100, 8, 40, ...
 	shift  *int         // event "rew": the registry rotates the weights among the endpoints (nil: 0)
 	inact  map[int]bool // events "ina<i>" / "act<i>": the registry lists endpoint i as inactive / active again
+	failN  *int         // the next *failN queries fail (registry unreachable)
 }
 
 var staticWeights = []int32{100, 8, 40}
@@ -74,6 +76,10 @@ func (r reg) list(keep func(int) bool) []endpointf.EndpointF {
 func (r reg) Registry(ctx context.Context, s *registry.ServantInstance) error   { return nil }
 func (r reg) Deregister(ctx context.Context, s *registry.ServantInstance) error { return nil }
 func (r reg) QueryServant(ctx context.Context, id string) ([]registry.Endpoint, []registry.Endpoint, error) {
+	if r.failN != nil && *r.failN > 0 {
+		*r.failN--
+		return nil, nil, errors.New("registry unreachable")
+	}
 	return r.list(func(i int) bool { return !r.inact[i] }), r.list(func(i int) bool { return r.inact[i] }), nil
 }
 func (r reg) QueryServantBySet(ctx context.Context, id, set string) ([]registry.Endpoint, []registry.Endpoint, error) {
@@ -396,7 +402,7 @@ func (w *world) expectedRoute(ev string, before []tars.VerifEpState) (int, bool)
 	code64, _ := strconv.ParseUint(ev[5:], 10, 32)
 	var act []endpoint.Endpoint
 	allStatic := true
-	for i, e := range (reg{w.n, w.static, w.shift, w.inact}).eps() {
+	for i, e := range (reg{w.n, w.static, w.shift, w.inact, nil}).eps() {
 		if i < len(before) && before[i].InActive {
 			ep := endpoint.Tars2endpoint(e)
 			act = append(act, ep)
@@ -409,7 +415,7 @@ func (w *world) expectedRoute(ev string, before []tars.VerifEpState) (int, bool)
 		return 0, false
 	}
 	// the weight switch follows the whole registry list, as the manager derives it
-	for _, e := range (reg{w.n, w.static, w.shift, w.inact}).eps() {
+	for _, e := range (reg{w.n, w.static, w.shift, w.inact, nil}).eps() {
 		if e.WeightType != 1 {
 			allStatic = false
 		}
@@ -463,14 +469,25 @@ func (w *world) key() string {
 
 // run replays history inside the current execution.
 func runHistory(n int, hist []string) (w *world) {
-	static := len(hist) > 0 && hist[0] == "static"
-	if static {
+	// leading pseudo-events: "static" = the registry publishes static weights; "cached" = the registry cannot be
+	// reached when the proxy is created and the endpoints come from the application's endpoint cache
+	static, cached := false, false
+	for len(hist) > 0 && (hist[0] == "static" || hist[0] == "cached") {
+		static = static || hist[0] == "static"
+		cached = cached || hist[0] == "cached"
 		hist = hist[1:]
 	}
 	shift := new(int)
 	inact := map[int]bool{}
-	comm := tars.VerifNewCommunicator(tars.VerifClientOpts{AsyncInvokeTimeout: callTimeoutMs, ReadTimeout: 20 * time.Second, WriteTimeout: -1,
-		DialTimeout: 500 * time.Millisecond, Registrar: reg{n, static, shift, inact}, RefreshInterval: 3600000})
+	failN := new(int)
+	r := reg{n, static, shift, inact, failN}
+	opts := tars.VerifClientOpts{AsyncInvokeTimeout: callTimeoutMs, ReadTimeout: 20 * time.Second, WriteTimeout: -1,
+		DialTimeout: 500 * time.Millisecond, Registrar: r, RefreshInterval: 3600000}
+	if cached {
+		*failN = 1
+		opts.CacheObj, opts.CacheEps = "App.Srv.Obj", r.eps()
+	}
+	comm := tars.VerifNewCommunicator(opts)
 	w = &world{n: n, start: vm.Now(), hashRoute: map[string]int{}, static: static, shift: shift, inact: inact}
 	for i := 0; i < n; i++ {
 		s := &server{idx: i, addr: fmt.Sprintf("10.0.0.%d:%d", i+1, basePort+i)}
@@ -511,7 +528,12 @@ var longHistories = map[string][]string{
 	"inactive-roundtrip-then-dead": {"call", "call", "call", "call", "ina1", "call", "call", "act1", "call", "call", "call", "call", "set1=r", "call", "call", "call", "call", "call", "call", "call", "call", "call", "call", "call", "call", "call", "call", "call", "call", "call", "call", "call", "call", "adv5", "adv1", "call", "call", "call", "call", "adv1", "call", "call"},
 	// the registry re-weights the endpoints, then one is blocked, probed, reinstated and dies again
 	"reweighted-block-probe-block": {"static", "call", "call", "call", "call", "rew", "call", "call", "set0=r", "call", "call", "call", "call", "call", "call", "call", "call", "call", "call", "call", "call", "call", "call", "call", "call", "call", "call", "call", "call", "call", "call", "call", "call", "call", "call", "call", "call", "call", "call", "adv5", "adv1", "call", "call", "set0=h", "adv30", "adv1", "call", "call", "call", "call", "mcall7", "mcall8", "mcall9", "mcall10", "mcall11", "mcall12", "hcall7", "hcall99", "hcall123456", "set0=r", "call", "call", "call", "call", "call", "call", "call", "call", "call", "call", "call", "call", "call", "call", "call", "call", "call", "call", "call", "call", "call", "call", "call", "call", "call", "call", "call", "call", "call", "call", "adv5", "adv1", "call", "call", "call", "call", "adv1", "call", "call"},
-	"hashed":                       {"set1=r", "hcall7", "hcall7", "hcall123456", "hcall7", "hcall99", "hcall7", "hcall7", "hcall99", "hcall7", "hcall7", "adv5", "adv1", "hcall7", "hcall99", "set1=h", "adv30", "hcall7", "hcall99"},
+	// a blocked endpoint waits in the probe queue (no traffic), the registry publishes a changed list, more idle time
+	"blocked-queued-refresh-queued": {"static", "set0=s", "call", "call", "call", "call", "call", "call", "call", "call", "call", "call", "call", "call", "adv1", "call", "call", "adv30", "adv1", "rew", "adv30", "adv1", "call", "call", "call",
+		"set0=h", "adv30", "adv1", "rew", "adv30", "adv1", "call", "call", "call"},
+	// the registry is unreachable when the proxy is created: the endpoints come from the endpoint cache
+	"cached-refuse-block-probe-recover": {"cached", "set0=r", "call", "call", "call", "call", "call", "call", "call", "call", "call", "call", "adv5", "adv1", "call", "call", "call", "adv30", "set0=h", "adv30", "call", "call", "call", "call"},
+	"hashed":                            {"set1=r", "hcall7", "hcall7", "hcall123456", "hcall7", "hcall99", "hcall7", "hcall7", "hcall99", "hcall7", "hcall7", "adv5", "adv1", "hcall7", "hcall99", "set1=h", "adv30", "hcall7", "hcall99"},
 }
 
 // callRun: length of the run of "call" events that position p lies strictly inside (0 if it does not).
@@ -624,7 +646,7 @@ func main() {
 			step = 2
 		}
 		for p := 0; p <= len(h); p += step {
-			if p == 1 && h[0] == "static" {
+			if p == 1 && (h[0] == "static" || h[0] == "cached") {
 				continue
 			}
 			// inside a long run of plain calls (the block-building stretches of 20-30 calls) only every
